@@ -229,14 +229,12 @@ def By.iter (y : By) : List (Out Export) :=
   (List.range y.fns.cnt).map fun i => y.exp.symbolFromRva (y.fns.off + 4 * i)
 def By.iterNames (y : By) : List (Out Ref × Out Export) :=
   (List.range y.names.cnt).map fun h => (y.nameOfHint h, y.hint h)
-def By.iterNameIndices (y : By) : List (Out Ref × Nat) :=
-  (List.range (min y.names.cnt y.idx.cnt)).map fun h => (y.nameOfHint h, y.idxAt h)
-
--- src: wrap/exports.rs:iter_name_indices   (`0..names().len()`, `self.name_indices()[hint]`)
-def By.iterNameIndicesWrap (y : By) : List (Out (Out Ref × Nat)) :=
-  (List.range y.names.cnt).map fun h =>
+/-- `(0..min(names.len(), name_indices.len())).map(|hint| (name_of_hint(hint), name_indices[hint]))`:
+the indexing is a checked one; the same code in src: wrap/exports.rs:iter_name_indices -/
+def By.iterNameIndices (y : By) : List (Out (Out Ref × Nat)) :=
+  (List.range (min y.names.cnt y.idx.cnt)).map fun h =>
     if h < y.idx.cnt then .ok (y.nameOfHint h, y.idxAt h)
-    else .panic "wrap:iter_name_indices:self.name_indices()[hint]"
+    else .panic "iter_name_indices:self.name_indices[hint]"
 
 /-- the argument of `GetProcAddress::get_export` -/
 inductive Query
